@@ -17,7 +17,8 @@ mod kit;
 
 use std::io::{Read, Write};
 use std::net::{Shutdown, TcpListener, TcpStream};
-use std::sync::atomic::{AtomicBool, AtomicUsize, Ordering};
+use std::sync::atomic::{AtomicBool, AtomicU64, AtomicUsize, Ordering};
+use std::sync::mpsc::{Receiver, Sender, channel};
 use std::sync::{Arc, Condvar, Mutex};
 use std::time::{Duration, Instant};
 
@@ -80,7 +81,11 @@ enum WStep {
     Fin,
 }
 
-const IO_DEADLINE: Duration = Duration::from_secs(12);
+static PATIENCE: AtomicUsize = AtomicUsize::new(1);
+/// nothing moved for this long = Stall (12 s; the solo re-run of a doubtful session multiplies it)
+fn io_deadline() -> Duration {
+    Duration::from_secs(12 * PATIENCE.load(Ordering::Relaxed).max(1) as u64)
+}
 
 /// Writer thread: position-coded bytes; logs Sent per accepted write (coalesced), Fin on shutdown.
 fn writer(mut s: TcpStream, o: u8, run: u64, seed: u64, dir: u8, plan: Vec<WStep>, gate: Gate, chunk_max: usize, rng_seed: u64) -> Vec<Value> {
@@ -94,7 +99,7 @@ fn writer(mut s: TcpStream, o: u8, run: u64, seed: u64, dir: u8, plan: Vec<WStep
             ev.push(json!({"ev":"Sent","run":run,"o":o,"d":dname,"off":a,"len":l}));
         }
     };
-    let _ = s.set_write_timeout(Some(IO_DEADLINE));
+    let _ = s.set_write_timeout(Some(io_deadline()));
     let mut buf = vec![0u8; chunk_max.max(1)];
     for st in plan {
         match st {
@@ -131,7 +136,7 @@ fn writer(mut s: TcpStream, o: u8, run: u64, seed: u64, dir: u8, plan: Vec<WStep
             }
             WStep::WaitGate => {
                 flush(&mut ev, &mut pend);
-                if !gate.wait(IO_DEADLINE) {
+                if !gate.wait(io_deadline()) {
                     ev.push(json!({"ev":"Stall","run":run,"o":o,"d":dname,"why":"the other direction never completed","off":off}));
                     return ev;
                 }
@@ -166,7 +171,7 @@ fn reader(mut s: TcpStream, o: u8, run: u64, seed: u64, dir: u8, cfg: ReadCfg, g
             ev.push(json!({"ev":"Rcvd","run":run,"o":o,"d":dname,"off":a,"len":l,"bad":-1}));
         }
     };
-    let _ = s.set_read_timeout(Some(IO_DEADLINE));
+    let _ = s.set_read_timeout(Some(io_deadline()));
     let mut buf = vec![0u8; cfg.chunk.max(1)];
     let mut skipped = 0usize;
     let mut gate_opened = false;
@@ -229,7 +234,7 @@ fn reader(mut s: TcpStream, o: u8, run: u64, seed: u64, dir: u8, cfg: ReadCfg, g
             }
             Err(e) if e.kind() == std::io::ErrorKind::WouldBlock || e.kind() == std::io::ErrorKind::TimedOut => {
                 flush(&mut ev, &mut pend);
-                ev.push(json!({"ev":"Stall","run":run,"o":o,"d":dname,"at":off,"target":cfg.target,"why":"nothing for 12 s"}));
+                ev.push(json!({"ev":"Stall","run":run,"o":o,"d":dname,"at":off,"target":cfg.target,"why":format!("nothing for {} s", io_deadline().as_secs())}));
                 return ev;
             }
             Err(e) => {
@@ -255,6 +260,55 @@ fn sizes(big: bool, rng: &mut Rng) -> u64 {
         &[0, 1, 2, 100, 16383, 16384, 16385, 16392, 16393, 16394, 32786, 65535, 65536, 65537, 131072, 262144, 1048576, 2_000_003]
     };
     rng.pick(table)
+}
+
+fn accept_backend(bl: &TcpListener) -> Result<TcpStream, String> {
+    bl.set_nonblocking(true).ok();
+    let t0 = Instant::now();
+    let backend = loop {
+        match bl.accept() {
+            Ok((s, _)) => break s,
+            Err(e) if e.kind() == std::io::ErrorKind::WouldBlock => {
+                if t0.elapsed() > Duration::from_secs(6) {
+                    return Err("backend connection never arrived".into());
+                }
+                std::thread::sleep(Duration::from_micros(200));
+            }
+            Err(e) => return Err(format!("accept: {e}")),
+        }
+    };
+    backend.set_nonblocking(false).ok();
+    let _ = backend.set_nodelay(true);
+    Ok(backend)
+}
+
+/// HTTP upgrade handshake, byte by byte so that nothing of the relayed streams is consumed here
+fn ws_handshake(client: &TcpStream, backend: &TcpStream) -> Result<(), String> {
+    let until_blank = |s: &TcpStream| -> Result<Vec<u8>, String> {
+        let mut s = s.try_clone().map_err(|e| e.to_string())?;
+        s.set_read_timeout(Some(Duration::from_secs(6))).ok();
+        let mut acc = Vec::new();
+        let mut b = [0u8; 1];
+        while !acc.ends_with(b"\r\n\r\n") {
+            match s.read(&mut b) {
+                Ok(1) => acc.push(b[0]),
+                Ok(_) => return Err("connection closed during the upgrade handshake".into()),
+                Err(e) => return Err(format!("upgrade handshake: {e}")),
+            }
+            if acc.len() > 8192 {
+                return Err("upgrade handshake: no end of headers".into());
+            }
+        }
+        Ok(acc)
+    };
+    until_blank(backend)?;
+    let mut bw0 = backend.try_clone().map_err(|e| e.to_string())?;
+    bw0.write_all(b"HTTP/1.1 101 Switching Protocols\r\nUpgrade: websocket\r\nConnection: Upgrade\r\n\r\n").map_err(|e| e.to_string())?;
+    let resp = until_blank(client)?;
+    if !resp.starts_with(b"HTTP/1.1 101") {
+        return Err(format!("upgrade refused: {}", String::from_utf8_lossy(&resp[..resp.len().min(60)])));
+    }
+    Ok(())
 }
 
 /// One session. Returns (reset line, the four event lists, description).
@@ -317,48 +371,9 @@ fn run_session(lane: &Lane, run: u64, seed: u64, big: bool) -> Result<(Value, [V
         cw0.write_all(b"GET /ws HTTP/1.1\r\nHost: localhost\r\nUpgrade: websocket\r\nConnection: Upgrade\r\nSec-WebSocket-Key: dGhlIHNhbXBsZSBub25jZQ==\r\nSec-WebSocket-Version: 13\r\n\r\n")
             .map_err(|e| e.to_string())?;
     }
-    bl.set_nonblocking(true).ok();
-    let t0 = Instant::now();
-    let backend = loop {
-        match bl.accept() {
-            Ok((s, _)) => break s,
-            Err(e) if e.kind() == std::io::ErrorKind::WouldBlock => {
-                if t0.elapsed() > Duration::from_secs(6) {
-                    return Err("backend connection never arrived".into());
-                }
-                std::thread::sleep(Duration::from_micros(200));
-            }
-            Err(e) => return Err(format!("accept: {e}")),
-        }
-    };
-    backend.set_nonblocking(false).ok();
-    let _ = backend.set_nodelay(true);
+    let backend = accept_backend(bl)?;
     if mode == "ws" {
-        // HTTP upgrade handshake, byte by byte so that nothing of the relayed streams is consumed here
-        let until_blank = |s: &TcpStream| -> Result<Vec<u8>, String> {
-            let mut s = s.try_clone().map_err(|e| e.to_string())?;
-            s.set_read_timeout(Some(Duration::from_secs(6))).ok();
-            let mut acc = Vec::new();
-            let mut b = [0u8; 1];
-            while !acc.ends_with(b"\r\n\r\n") {
-                match s.read(&mut b) {
-                    Ok(1) => acc.push(b[0]),
-                    Ok(_) => return Err("connection closed during the upgrade handshake".into()),
-                    Err(e) => return Err(format!("upgrade handshake: {e}")),
-                }
-                if acc.len() > 8192 {
-                    return Err("upgrade handshake: no end of headers".into());
-                }
-            }
-            Ok(acc)
-        };
-        until_blank(&backend)?;
-        let mut bw0 = backend.try_clone().map_err(|e| e.to_string())?;
-        bw0.write_all(b"HTTP/1.1 101 Switching Protocols\r\nUpgrade: websocket\r\nConnection: Upgrade\r\n\r\n").map_err(|e| e.to_string())?;
-        let resp = until_blank(&client)?;
-        if !resp.starts_with(b"HTTP/1.1 101") {
-            return Err(format!("upgrade refused: {}", String::from_utf8_lossy(&resp[..resp.len().min(60)])));
-        }
+        ws_handshake(&client, &backend)?;
     }
 
     let gate = Gate::new();
@@ -398,6 +413,441 @@ fn run_session(lane: &Lane, run: u64, seed: u64, big: bool) -> Result<(Value, [V
     Ok((reset, [e1, e2, e3, e4]))
 }
 
+// ------------------------------------------------------------------------------------------------
+// Paced sessions: the peers follow a script of the environment actions of TcpRelay.tla (Peer_Write,
+// Peer_Fin, Peer_Read and, above all, NOT reading) so that the states "sender finished and closed,
+// receiver slow or silent, kernel queues full, bytes left in sozu" are reached on purpose:
+//   * reader stalls for whole phases; transfers larger than every buffer of the path;
+//   * the worker's own sockets get small send buffers in part of the sessions (the kernel buffers
+//     are environment: tcp_wmem of the host), so that kilobytes are enough to block a socket;
+//   * the end of stream is sent while bytes are pending: with the data, after the sender's socket
+//     was drained by sozu ("FIN on its own"), or while the reader crawls.
+// The four peer threads record the same events as in the free-running sessions; the verdict is
+// the trace validation, the script and the queue probes only decide WHEN a peer acts.
+// ------------------------------------------------------------------------------------------------
+
+struct Prog {
+    bytes: AtomicU64,    // stream bytes written / read so far
+    pending: AtomicUsize, // commands sent and not finished
+    ended: AtomicBool,   // the thread has returned (eof, error, stall)
+}
+
+enum WCmd {
+    Write(u64),
+    Pause(u64),
+    Fin,
+    End,
+}
+
+enum RCmd {
+    /// read n more stream bytes (stops early at the end of stream)
+    Read { n: u64, chunk: usize, delay_us: u64 },
+    /// the rest: at least up to `target`, and on to the end of stream if `until_eof`
+    Finish { target: u64, until_eof: bool, chunk: usize, delay_us: u64 },
+}
+
+fn paced_writer(mut s: TcpStream, o: u8, run: u64, seed: u64, dir: u8, rx: Receiver<WCmd>, prog: Arc<Prog>, chunk_max: usize, rng_seed: u64) -> Vec<Value> {
+    let dname = if dir == 0 { "c2b" } else { "b2c" };
+    let mut ev: Vec<Value> = Vec::new();
+    let mut rng = Rng(rng_seed);
+    let mut off: u64 = 0;
+    let mut pend: Option<(u64, u64)> = None;
+    let flush = |ev: &mut Vec<Value>, pend: &mut Option<(u64, u64)>| {
+        if let Some((a, l)) = pend.take() {
+            ev.push(json!({"ev":"Sent","run":run,"o":o,"d":dname,"off":a,"len":l}));
+        }
+    };
+    let _ = s.set_write_timeout(Some(io_deadline()));
+    let mut buf = vec![0u8; chunk_max.max(1)];
+    'cmds: while let Ok(cmd) = rx.recv() {
+        match cmd {
+            WCmd::Write(n) => {
+                let end = off + n;
+                while off < end {
+                    let want = ((1 + rng.below(chunk_max as u64)) as u64).min(end - off) as usize;
+                    kit::fill(seed, dir, off, &mut buf[..want]);
+                    match s.write(&buf[..want]) {
+                        Ok(0) => {
+                            flush(&mut ev, &mut pend);
+                            ev.push(json!({"ev":"Stall","run":run,"o":o,"d":dname,"why":"write returned 0","off":off}));
+                            break 'cmds;
+                        }
+                        Ok(k) => {
+                            match pend.as_mut() {
+                                Some((_, l)) if *l < 256 * 1024 => *l += k as u64,
+                                _ => {
+                                    flush(&mut ev, &mut pend);
+                                    pend = Some((off, k as u64));
+                                }
+                            }
+                            off += k as u64;
+                            prog.bytes.store(off, Ordering::SeqCst);
+                        }
+                        Err(e) if e.kind() == std::io::ErrorKind::WouldBlock || e.kind() == std::io::ErrorKind::TimedOut => {
+                            flush(&mut ev, &mut pend);
+                            ev.push(json!({"ev":"Stall","run":run,"o":o,"d":dname,"off":off,
+                                           "why":format!("a write did not move for {} s", io_deadline().as_secs())}));
+                            break 'cmds;
+                        }
+                        Err(e) => {
+                            flush(&mut ev, &mut pend);
+                            ev.push(json!({"ev":"WriteEnd","run":run,"o":o,"d":dname,"why":format!("{:?}", e.kind()),"off":off}));
+                            break 'cmds;
+                        }
+                    }
+                }
+            }
+            WCmd::Pause(ms) => std::thread::sleep(Duration::from_millis(ms)),
+            WCmd::Fin => {
+                flush(&mut ev, &mut pend);
+                ev.push(json!({"ev":"Fin","run":run,"o":o,"d":dname,"after":[0,0],"at":off}));
+                let _ = s.shutdown(Shutdown::Write);
+            }
+            WCmd::End => {
+                prog.pending.fetch_sub(1, Ordering::SeqCst);
+                break;
+            }
+        }
+        prog.pending.fetch_sub(1, Ordering::SeqCst);
+    }
+    flush(&mut ev, &mut pend);
+    prog.ended.store(true, Ordering::SeqCst);
+    ev
+}
+
+fn paced_reader(mut s: TcpStream, o: u8, run: u64, seed: u64, dir: u8, skip: Vec<u8>, rx: Receiver<RCmd>, prog: Arc<Prog>) -> Vec<Value> {
+    let dname = if dir == 0 { "c2b" } else { "b2c" };
+    let mut ev: Vec<Value> = Vec::new();
+    let mut off: u64 = 0;
+    let mut pend: Option<(u64, u64)> = None;
+    let flush = |ev: &mut Vec<Value>, pend: &mut Option<(u64, u64)>| {
+        if let Some((a, l)) = pend.take() {
+            ev.push(json!({"ev":"Rcvd","run":run,"o":o,"d":dname,"off":a,"len":l,"bad":-1}));
+        }
+    };
+    let _ = s.set_read_timeout(Some(io_deadline()));
+    let mut skipped = 0usize;
+    let mut buf = vec![0u8; 65536];
+    'cmds: while let Ok(cmd) = rx.recv() {
+        let (goal, until_eof, chunk, delay_us, last) = match cmd {
+            RCmd::Read { n, chunk, delay_us } => (off.saturating_add(n), false, chunk, delay_us, false),
+            RCmd::Finish { target, until_eof, chunk, delay_us } => (target, until_eof, chunk, delay_us, true),
+        };
+        loop {
+            if !until_eof && off >= goal && skipped == skip.len() {
+                break;
+            }
+            if delay_us > 0 {
+                std::thread::sleep(Duration::from_micros(delay_us));
+            }
+            // never read beyond the goal of a bounded command: the rest belongs to a later phase of the script
+            let room = if until_eof || skipped < skip.len() { chunk.max(1) } else { (chunk.max(1) as u64).min(goal - off) as usize };
+            match s.read(&mut buf[..room.min(65536)]) {
+                Ok(0) => {
+                    flush(&mut ev, &mut pend);
+                    ev.push(json!({"ev":"Eof","run":run,"o":o,"d":dname,"kind":"eof","at":off}));
+                    prog.pending.fetch_sub(1, Ordering::SeqCst);
+                    break 'cmds;
+                }
+                Ok(n) => {
+                    let mut data = &buf[..n];
+                    if skipped < skip.len() {
+                        let k = (skip.len() - skipped).min(data.len());
+                        if data[..k] != skip[skipped..skipped + k] {
+                            flush(&mut ev, &mut pend);
+                            ev.push(json!({"ev":"Rcvd","run":run,"o":o,"d":dname,"off":0,"len":k,"bad":0,
+                                           "why":"proxy header differs","got":data[..k].to_vec(),"want":skip[skipped..skipped+k].to_vec()}));
+                            prog.pending.fetch_sub(1, Ordering::SeqCst);
+                            break 'cmds;
+                        }
+                        skipped += k;
+                        data = &data[k..];
+                    }
+                    if !data.is_empty() {
+                        let bad = kit::first_bad(seed, dir, off, data);
+                        if bad >= 0 {
+                            flush(&mut ev, &mut pend);
+                            ev.push(json!({"ev":"Rcvd","run":run,"o":o,"d":dname,"off":off,"len":data.len(),"bad":bad}));
+                            prog.pending.fetch_sub(1, Ordering::SeqCst);
+                            break 'cmds;
+                        }
+                        match pend.as_mut() {
+                            Some((_, l)) if *l < 256 * 1024 => *l += data.len() as u64,
+                            _ => {
+                                flush(&mut ev, &mut pend);
+                                pend = Some((off, data.len() as u64));
+                            }
+                        }
+                        off += data.len() as u64;
+                        prog.bytes.store(off, Ordering::SeqCst);
+                    }
+                }
+                Err(e) if e.kind() == std::io::ErrorKind::WouldBlock || e.kind() == std::io::ErrorKind::TimedOut => {
+                    flush(&mut ev, &mut pend);
+                    ev.push(json!({"ev":"Stall","run":run,"o":o,"d":dname,"at":off,"target":goal,
+                                   "why":format!("nothing for {} s", io_deadline().as_secs())}));
+                    prog.pending.fetch_sub(1, Ordering::SeqCst);
+                    break 'cmds;
+                }
+                Err(e) => {
+                    flush(&mut ev, &mut pend);
+                    ev.push(json!({"ev":"Eof","run":run,"o":o,"d":dname,"kind":format!("{:?}", e.kind()),"at":off}));
+                    prog.pending.fetch_sub(1, Ordering::SeqCst);
+                    break 'cmds;
+                }
+            }
+        }
+        prog.pending.fetch_sub(1, Ordering::SeqCst);
+        if last {
+            break;
+        }
+    }
+    flush(&mut ev, &mut pend);
+    prog.ended.store(true, Ordering::SeqCst);
+    ev
+}
+
+struct Actor<C> {
+    tx: Sender<C>,
+    prog: Arc<Prog>,
+}
+impl<C> Actor<C> {
+    fn send(&self, c: C) {
+        self.prog.pending.fetch_add(1, Ordering::SeqCst);
+        if self.tx.send(c).is_err() {
+            self.prog.pending.fetch_sub(1, Ordering::SeqCst);
+        }
+    }
+    /// Wait until the actor has nothing left to do (true), or has not moved a byte for `quiet`
+    /// although it has (false: it is blocked by back-pressure / starved), or `max` passed (false).
+    fn settle(&self, quiet: Duration, max: Duration) -> bool {
+        let t0 = Instant::now();
+        let mut last = self.prog.bytes.load(Ordering::SeqCst);
+        let mut since = Instant::now();
+        loop {
+            if self.prog.ended.load(Ordering::SeqCst) || self.prog.pending.load(Ordering::SeqCst) == 0 {
+                return true;
+            }
+            let b = self.prog.bytes.load(Ordering::SeqCst);
+            if b != last {
+                last = b;
+                since = Instant::now();
+            } else if since.elapsed() >= quiet {
+                return false;
+            }
+            if t0.elapsed() >= max {
+                return false;
+            }
+            std::thread::sleep(Duration::from_millis(2));
+        }
+    }
+}
+
+/// One paced session. Same result shape as run_session.
+fn run_paced(lane: &Lane, run: u64, seed: u64, big: bool) -> Result<(Value, [Vec<Value>; 4]), String> {
+    let mut rng = Rng(seed ^ 0x5041_4345);
+    let mode_i = [0usize, 0, 0, 1, 2, 3, 4, 4][rng.below(8) as usize].min(lane.clusters.len() - 1);
+    let (mode, cl, bl) = &lane.clusters[mode_i];
+    // the subject direction: mostly the response (a client FIN is the open finding FrontFinDrops)
+    let d: u8 = if rng.below(4) == 0 { 0 } else { 1 };
+    let template = ["stall_fin", "stall_fin", "tail_fin", "tail_fin", "crawl_fin", "partial_fin", "both_loaded"][rng.below(7) as usize];
+    // kernel buffers: small and fixed (most sessions) or the host's defaults with megabytes
+    let natural = rng.below(6) == 0;
+    let rcvbuf = rng.pick(&[2048usize, 4096, 16384]);
+    let sndbuf = rng.pick(&[4096usize, 8192, 32768]);
+    let n_d: u64 = if natural {
+        let t: &[u64] = if big { &[5_000_011, 9_000_000, 14_000_000, 24_000_001] } else { &[5_000_011, 7_000_000, 9_000_000] };
+        rng.pick(t)
+    } else {
+        // around and beyond what the forced buffers + sozu's 16 KiB buffer hold
+        rng.pick(&[9_000u64, 20_000, 33_000, 48_000, 70_000, 100_000, 140_000, 200_000, 400_000, 1_000_003])
+    };
+    let n_o: u64 = if template == "both_loaded" { rng.pick(&[30_000u64, 150_000, 600_000]) } else { rng.pick(&[0u64, 0, 1, 64, 100]) };
+    let (n_c, n_b) = if d == 1 { (n_o, n_d) } else { (n_d, n_o) };
+    let fin_pause = rng.pick(&[0u64, 0, 15, 60, 250]);      // between "everything written" and the FIN
+    let resume_pause = rng.pick(&[10u64, 40, 120, 400]);    // between the FIN and the reader's (re)start
+    let crawl_chunk = rng.pick(&[512usize, 2048, 8192]);
+    let crawl_delay = rng.pick(&[300u64, 1000, 2500]);
+    let fast = rng.below(2) == 0;
+    let (fin_chunk, fin_delay) = if fast { (65536usize, 0u64) } else { (rng.pick(&[1024usize, 4096, 16384]), rng.pick(&[0u64, 200, 800])) };
+    let wchunk = rng.pick(&[1000usize, 16384, 65536, 200_000]);
+    let pseed = rng.next();
+
+    kit::set_sockbuf(kit::fd_of_listener(bl), Some(if natural { 1 << 20 } else { rcvbuf }), None);
+    let client = kit::connect_with_bufs(cl.front, if natural { None } else { Some(rcvbuf) }, None).map_err(|e| format!("connect: {e}"))?;
+    let _ = client.set_nodelay(true);
+    let local = client.local_addr().map_err(|e| e.to_string())?;
+    let mut cw0 = client.try_clone().map_err(|e| e.to_string())?;
+    let mut backend_skip: Vec<u8> = Vec::new();
+    match mode.as_str() {
+        "relay" => {
+            cw0.write_all(&HDR_RELAY).map_err(|e| e.to_string())?;
+            backend_skip = HDR_RELAY.to_vec();
+        }
+        "expect" => {
+            cw0.write_all(&HDR_RELAY).map_err(|e| e.to_string())?;
+        }
+        "send" => {
+            backend_skip = HeaderV2::new(Command::Proxy, local, cl.front).into_bytes();
+        }
+        _ => {}
+    }
+    if mode == "ws" {
+        cw0.write_all(b"GET /ws HTTP/1.1\r\nHost: localhost\r\nUpgrade: websocket\r\nConnection: Upgrade\r\nSec-WebSocket-Key: dGhlIHNhbXBsZSBub25jZQ==\r\nSec-WebSocket-Version: 13\r\n\r\n")
+            .map_err(|e| e.to_string())?;
+    }
+    let backend = accept_backend(bl)?;
+    if mode == "ws" {
+        ws_handshake(&client, &backend)?;
+    }
+    let sozu_back_local = backend.peer_addr().map_err(|e| e.to_string())?;
+    let back_addr = backend.local_addr().map_err(|e| e.to_string())?;
+    // the worker's sockets towards both peers: small send buffers (no autotuning) unless `natural`
+    let mut forced: (Option<i32>, Option<i32>) = (None, None);
+    if !natural {
+        forced.0 = kit::shrink_sndbuf(cl.front, local, sndbuf, Duration::from_secs(2));
+        forced.1 = kit::shrink_sndbuf(sozu_back_local, back_addr, sndbuf, Duration::from_secs(2));
+    }
+
+    let mk_prog = || Arc::new(Prog { bytes: AtomicU64::new(0), pending: AtomicUsize::new(0), ended: AtomicBool::new(false) });
+    let (p1, p2, p3, p4) = (mk_prog(), mk_prog(), mk_prog(), mk_prog());
+    let (t1, r1) = channel::<WCmd>();
+    let (t2, r2) = channel::<WCmd>();
+    let (t3, r3) = channel::<RCmd>();
+    let (t4, r4) = channel::<RCmd>();
+    let (cws, bws, crs, brs) = (
+        client.try_clone().map_err(|e| e.to_string())?,
+        backend.try_clone().map_err(|e| e.to_string())?,
+        client.try_clone().map_err(|e| e.to_string())?,
+        backend.try_clone().map_err(|e| e.to_string())?,
+    );
+    let (s1, s2) = (rng.next(), rng.next());
+    let (q1, q2, q3, q4) = (p1.clone(), p2.clone(), p3.clone(), p4.clone());
+    let h1 = std::thread::spawn(move || paced_writer(cws, 1, run, pseed, 0, r1, q1, wchunk, s1));
+    let h2 = std::thread::spawn(move || paced_writer(bws, 2, run, pseed, 1, r2, q2, wchunk, s2));
+    let h3 = std::thread::spawn(move || paced_reader(crs, 3, run, pseed, 1, Vec::new(), r3, q3));
+    let h4 = std::thread::spawn(move || paced_reader(brs, 4, run, pseed, 0, backend_skip, r4, q4));
+    let cw = Actor { tx: t1, prog: p1 };
+    let bw = Actor { tx: t2, prog: p2 };
+    let cr = Actor { tx: t3, prog: p3 };
+    let br = Actor { tx: t4, prog: p4 };
+    // subject direction d: its writer / reader; the other direction o
+    let (wd, rd_, wo, ro) = if d == 1 { (&bw, &cr, &cw, &br) } else { (&cw, &br, &bw, &cr) };
+    let quiet = Duration::from_millis(150);
+    let long = Duration::from_secs(6);
+    let mut notes: Vec<Value> = Vec::new();
+    // the sender-side hop of direction d is empty: the writer's socket has no unacknowledged byte and sozu has read
+    // everything out of its own socket (black-box probes, pacing only)
+    let writer_fd = if d == 1 { kit::fd_of(&backend) } else { kit::fd_of(&client) };
+    let (sozu_rx_local, sozu_rx_peer) = if d == 1 { (sozu_back_local, back_addr) } else { (cl.front, local) };
+    let hop_empty = || kit::outq(writer_fd) == Some(0) && matches!(kit::rx_queue(&sozu_rx_local, &sozu_rx_peer), Some(0) | None);
+
+    let with_fin = template != "both_loaded";
+    if template != "both_loaded" && n_o > 0 {
+        // the other direction first, completely (a peer that still writes when the session is closed gets a reset:
+        // that is TCP, not the relay)
+        wo.send(WCmd::Write(n_o));
+        ro.send(RCmd::Read { n: n_o, chunk: 65536, delay_us: 0 });
+        wo.settle(quiet, long);
+        ro.settle(Duration::from_secs(3), long);
+    }
+    match template {
+        "stall_fin" => {
+            // the reader is silent; the sender writes everything (or as much as the path takes), then finishes
+            wd.send(WCmd::Write(n_d));
+            let done = wd.settle(quiet, long);
+            notes.push(json!({"written_before_stall_ends": wd.prog.bytes.load(Ordering::SeqCst), "writer_done": done}));
+            wd.send(WCmd::Pause(fin_pause));
+            wd.send(WCmd::Fin);
+            if done {
+                wd.settle(Duration::from_secs(2), long);
+            }
+            std::thread::sleep(Duration::from_millis(resume_pause));
+        }
+        "tail_fin" => {
+            // the reader is silent until the path is full, then reads in small steps until sozu has emptied the
+            // sender's side: what is left sits in sozu's buffer and beyond. Then the end of stream arrives on its own.
+            wd.send(WCmd::Write(n_d));
+            let done = wd.settle(quiet, long);
+            let mut steps = 0u64;
+            let t0 = Instant::now();
+            let step = (n_d / 400).clamp(1024, 65536);
+            while !(wd.prog.pending.load(Ordering::SeqCst) == 0 && hop_empty()) && steps < 1000 && t0.elapsed() < Duration::from_secs(6)
+                && !rd_.prog.ended.load(Ordering::SeqCst) && rd_.prog.bytes.load(Ordering::SeqCst) + step < n_d {
+                rd_.send(RCmd::Read { n: step, chunk: step as usize, delay_us: 0 });
+                rd_.settle(Duration::from_millis(60), Duration::from_millis(300));
+                steps += 1;
+                std::thread::sleep(Duration::from_micros(300));
+            }
+            notes.push(json!({"writer_done_at_first": done, "drain_steps": steps, "hop_empty": hop_empty(),
+                              "read_before_fin": rd_.prog.bytes.load(Ordering::SeqCst)}));
+            std::thread::sleep(Duration::from_millis(fin_pause.max(15)));
+            wd.send(WCmd::Fin);
+            wd.settle(Duration::from_secs(2), long);
+            std::thread::sleep(Duration::from_millis(resume_pause));
+        }
+        "crawl_fin" => {
+            // the reader crawls from the start; the sender writes everything and finishes at once
+            rd_.send(RCmd::Read { n: n_d / 2, chunk: crawl_chunk, delay_us: crawl_delay.min(1_500_000 / (n_d / 2 / crawl_chunk as u64).max(1)) });
+            wd.send(WCmd::Write(n_d));
+            wd.send(WCmd::Pause(fin_pause));
+            wd.send(WCmd::Fin);
+            wd.settle(Duration::from_millis(400), long);
+        }
+        "partial_fin" => {
+            wd.send(WCmd::Write(n_d));
+            wd.settle(quiet, long);
+            let m = 1 + rng.below(n_d.max(2) - 1);
+            rd_.send(RCmd::Read { n: m, chunk: crawl_chunk, delay_us: 0 });
+            rd_.settle(quiet, long);
+            notes.push(json!({"partial_read": rd_.prog.bytes.load(Ordering::SeqCst), "of": m}));
+            wd.send(WCmd::Pause(fin_pause));
+            wd.send(WCmd::Fin);
+            wd.settle(quiet, long);
+            std::thread::sleep(Duration::from_millis(resume_pause));
+        }
+        _ => {
+            // both directions loaded against silent readers, then the readers start in a seeded order; no FIN
+            wd.send(WCmd::Write(n_d));
+            wo.send(WCmd::Write(n_o));
+            wd.settle(quiet, long);
+            wo.settle(quiet, long);
+            std::thread::sleep(Duration::from_millis(resume_pause));
+            if rng.below(2) == 0 {
+                ro.send(RCmd::Read { n: n_o / 2, chunk: crawl_chunk, delay_us: 0 });
+                ro.settle(quiet, long);
+            }
+        }
+    }
+    // the rest of both streams
+    let (target_c, target_b) = (n_b, n_c); // what the client / backend reader must get
+    let eof = with_fin;
+    let (fc, fd_) = if d == 1 { ((fin_chunk, fin_delay), (65536usize, 0u64)) } else { ((65536usize, 0u64), (fin_chunk, fin_delay)) };
+    // a crawling final read is bounded in time (~1.5 s of sleeping)
+    let bound = |n: u64, chunk: usize, delay: u64| -> u64 { delay.min(1_500_000 / (n / chunk as u64).max(1)) };
+    cr.send(RCmd::Finish { target: target_c, until_eof: eof, chunk: fc.0, delay_us: bound(target_c, fc.0, fc.1) });
+    br.send(RCmd::Finish { target: target_b, until_eof: eof, chunk: fd_.0, delay_us: bound(target_b, fd_.0, fd_.1) });
+    cw.send(WCmd::End);
+    bw.send(WCmd::End);
+    let e1 = h1.join().map_err(|_| "writer panicked")?;
+    let e2 = h2.join().map_err(|_| "writer panicked")?;
+    let e3 = h3.join().map_err(|_| "reader panicked")?;
+    let e4 = h4.join().map_err(|_| "reader panicked")?;
+    let keep = |v: Vec<Value>| -> Vec<Value> { v.into_iter().filter(|e| e["ev"] != "WriteEnd").collect() };
+    let (e1, e2) = (keep(e1), keep(e2));
+    kit::set_linger0(kit::fd_of(&client));
+    drop(client);
+    drop(backend);
+    let reset = json!({"ev":"reset","run":run,"n":[e1.len(),e2.len(),e3.len(),e4.len()],
+                       "mode":mode,"scenario":format!("paced_{template}"),"subject":if d == 1 { "b2c" } else { "c2b" },
+                       "n_c":n_c,"n_b":n_b,"p_c":0,"p_b":0,"natural_buffers":natural,"rcvbuf":rcvbuf,
+                       "sozu_sndbuf_forced":[forced.0.unwrap_or(-1), forced.1.unwrap_or(-1)],"fin_pause_ms":fin_pause,"resume_pause_ms":resume_pause,
+                       "final_read":[fin_chunk, fin_delay],"notes":notes,
+                       "slow_client_reader":d == 1,"slow_backend_reader":d == 0,
+                       "seed":seed.to_string()});
+    Ok((reset, [e1, e2, e3, e4]))
+}
+
 fn main() {
     quiet_panics();
     let seed: u64 = arg("--seed", "1").parse().unwrap_or(1);
@@ -405,6 +855,12 @@ fn main() {
     let threads: usize = arg("--threads", "6").parse().unwrap_or(6);
     let big = arg("--big", "0") == "1";
     let out_path = arg("--out", "/tmp/c18_trace.ndjson");
+    // paced sessions are numbered runs+1 .. runs+paced
+    let paced: usize = arg("--paced", "0").parse().unwrap_or(0);
+    // re-run of one session alone (same seed = same parameters), usually with more patience
+    let only: usize = arg("--only", "0").parse().unwrap_or(0);
+    PATIENCE.store(arg("--patience", "1").parse().unwrap_or(1), Ordering::Relaxed);
+    let threads = if only > 0 { 1 } else { threads };
     let t0 = Instant::now();
 
     let mut w = Worker::start_empty("c18drive");
@@ -461,11 +917,21 @@ fn main() {
                         return;
                     }
                     let k = next.fetch_add(1, Ordering::SeqCst);
-                    if k >= runs {
+                    // paced sessions first: they sleep a lot and overlap with the busy ones
+                    let k = if only > 0 {
+                        if k > 0 {
+                            return;
+                        }
+                        only - 1
+                    } else if k >= runs + paced {
                         return;
-                    }
+                    } else if k < paced {
+                        runs + k
+                    } else {
+                        k - paced
+                    };
                     let rseed = seed.wrapping_mul(0x2545_F491_4F6C_DD1D) ^ (k as u64 + 1).wrapping_mul(0x9E37_79B9_7F4A_7C15);
-                    let r = run_session(&lane, k as u64 + 1, rseed, big);
+                    let r = if k >= runs { run_paced(&lane, k as u64 + 1, rseed, big) } else { run_session(&lane, k as u64 + 1, rseed, big) };
                     if r.is_err() && worker.lock().unwrap().is_finished() {
                         dead.store(true, Ordering::SeqCst);
                     }
